@@ -111,6 +111,9 @@ pub fn print_cases(path: &str) -> Result<(), String> {
         let order = c["o"].as_str().unwrap_or("");
         let mut argv = vec!["squitterator".to_string(), format!("--display-info={}", flags)];
         argv.push(format!("--order-by={}", order));
+        if let Some(extra) = c.get("argv").and_then(|a| a.as_array()) {
+            argv.extend(extra.iter().filter_map(|x| x.as_str().map(String::from)));
+        }
         let args = Args::try_parse_from(argv).map_err(|e| format!("case {}: {}", id, e.kind()))?;
         let display_flags = DisplayFlags::from_arg_str(&args.display_info.concat());
         let headers = LegendHeaders::from_display_flags(&display_flags);
